@@ -158,7 +158,7 @@ def check_model(group: ModelGroupType) -> None:
                     else:
                         msg = _("{0!r} and {1!r} overlap and are in the same {2!r} group")
                         raise XMLSchemaModelError(group, msg.format(pe, e, pe.parent.model))
-                elif pe.is_univocal():
+                elif pe.is_univocal() and pe.parent.max_occurs == 1:
                     continue
 
             if distinguishable_paths(previous_path + [pe], current_path + [e]):
